@@ -198,7 +198,7 @@ def fixable_function(draw, i):
         # a fixable expression in the header of a (possibly decorated) def: a default value
         it = draw(st.sampled_from(["range(3)", "(1, 2)", '"ab"']))
         comp = draw(st.sampled_from([f"[1 for x{i} in {it}]", f"{{1 for x{i} in {it}}}", f"{{1: 0 for x{i} in {it}}}"]))
-        head = f"def f{i}(a, b={comp}):"
+        head = f"{draw(st.sampled_from(['', '', 'async ']))}def f{i}(a, b={comp}):"
     body = []
     if kind == "unused":
         body = [f"x{i} = a + 1", "return b"]
@@ -297,7 +297,9 @@ def fixable_program(draw):
         lines += ls
     if any(l.strip() == "@deco" for l in lines):
         # applying the decorator twice is visible in the result
-        lines = ["def deco(f):", "    def w(*p, **k):", "        return ('w', f(*p, **k))", "    return w"] + lines
+        lines = ["def deco(f):", "    def w(*p, **k):", "        r = f(*p, **k)", "        try:", "            send = r.send",
+                 "        except AttributeError:", "            return ('w', r)", "        try:", "            send(None)",
+                 "        except StopIteration as e:", "            return ('w', e.value)", "        return ('w', None)", "    return w"] + lines
     return kinds, "\n".join(lines) + "\n"
 
 
@@ -437,6 +439,12 @@ def exec_diff(old_src, new_src):
                     continue
                 try:
                     v = fn(*[copy_arg(env["a"]), copy_arg(env["b"])])
+                    if hasattr(v, "send") and hasattr(v, "cr_frame"):
+                        # a coroutine (async def): drive it to its result
+                        try:
+                            v.send(None)
+                        except StopIteration as e:
+                            v = ("coroutine-result", e.value)
                     if hasattr(v, "__next__"):
                         v = list(v)
                     outs.append(("ok", repr(v)))
